@@ -219,6 +219,8 @@ type L2Env struct {
 	OK      *oraclekeeper.Keeper
 	K       *opchildkeeper.Keeper
 	Msg     *opchildkeeper.MsgServer
+	Q       opchildtypes.QueryServer // the real gRPC query server: observables that have a public query are read through it
+	QueryDiffs []string            // query answers that differ from the keeper state (filled by L2Obs)
 	Router  *baseapp.MsgServiceRouter
 	Users   []*Account          // sorted by address bytes, ids 1..n
 	Table   map[string]uint64   // address string (any accepted spelling used so far) -> id
@@ -324,6 +326,7 @@ func NewL2Env(seed uint64, nUsers int, withFaults bool) *L2Env {
 		ctx.Logger())
 	env.K = k
 	env.Msg = opchildkeeper.NewMsgServerImpl(k)
+	env.Q = opchildkeeper.NewQuerier(k)
 	if withFaults {
 		// router = messages executed by hooks (the harness calls env.Msg directly)
 		opchildtypes.RegisterMsgServer(router, faultOpchildMsgServer{env.Msg, env.Fault})
